@@ -138,6 +138,8 @@ uint32_t new_obj_id() noexcept;
 void mark_harness_task(bool is_harness) noexcept;  // spawn-fail only hits non-harness creators
 void in_operation(bool on) noexcept;  // harness marks "inside an API operation" (non-trivial switch stat)
 uint64_t switches_in_op() noexcept;
+uint64_t self_points() noexcept;       // schedule points executed by the calling task
+uint64_t self_timer_wakes() noexcept;  // times the calling task was woken by a deadline
 
 struct MutexS
 {
